@@ -9,8 +9,13 @@ Correspondence (model vs dask_array._rechunk on the same inputs, every run):
 Search (independent of the model): brute-force validation of real `plan_rechunk` outputs
   (every step sums to the shape, last step = new, finite under a watchdog, block budget) and the
   brute-force crosswalk contract on `old_to_new`.
+  Call histories: the same (old, new, itemsize) planned under a SEQUENCE of configurations in one process
+  (array.chunk-size, array.rechunk.threshold, array.rechunk.degree-limit; limits / thresholds passed as arguments
+  or left to the configuration, every order incl. A,B,A): each plan is validated against the budget IN FORCE at
+  that call and must equal the plan of the same call with every default passed explicitly (under decoy defaults).
 Failure signatures: budget:bound_degree, budget:planner, plan:invalid, plan:nontermination,
-  plan:raises:zero-width, plan:raises, crosswalk:<what>.
+  plan:raises:zero-width, plan:raises, crosswalk:<what>, history:budget, history:differs-from-explicit,
+  history:invalid, history:raises, history:nontermination.
 """
 from __future__ import annotations
 
@@ -326,6 +331,161 @@ def rand_case(rng, maxaxis, zeros=0.0):
     }
 
 
+# ------------------------------------------------- call histories (configuration sequences)
+
+CFG_LIMIT, CFG_THRESHOLD, CFG_DEGREE = "array.chunk-size", "array.rechunk.threshold", "array.rechunk.degree-limit"
+DECOY = {CFG_LIMIT: "3B", CFG_THRESHOLD: 97}
+
+
+def _bytes(v):
+    from dask.utils import parse_bytes
+
+    return parse_bytes(v) if isinstance(v, str) else int(v)
+
+
+def _plan_under(R, old, new, itemsize, threshold, limit, config, timeout=10.0):
+    import dask
+
+    prev = signal.signal(signal.SIGALRM, _alarm)
+    signal.setitimer(signal.ITIMER_REAL, timeout)
+    try:
+        with dask.config.set(config):
+            return R.plan_rechunk(old, new, itemsize, threshold, limit)
+    finally:
+        signal.setitimer(signal.ITIMER_REAL, 0)
+        signal.signal(signal.SIGALRM, prev)
+
+
+def check_history_case(ctx, R, case):
+    """One (old, new, itemsize) planned under each configuration of case["steps"] in turn, in this process.
+    A step = {"threshold": arg or None, "limit": arg or None, "config": {all three keys}}.  Oracles per step:
+    (a) brute force: every step of the plan is a chunking of the shape, the last is `new`, no intermediate block is
+        larger than max(limit in force / itemsize, largest old, largest new);
+    (b) the plan equals the plan of the same call with threshold and block_size_limit passed explicitly while the
+        configuration holds decoy defaults (a default read from the configuration must be read at every call)."""
+    old = tuple(tuple(c) for c in case["old"])
+    new = tuple(tuple(c) for c in case["new"])
+    shape = tuple(sum(c) for c in old)
+    itemsize = case["itemsize"]
+    plans = []
+    ok = True
+    for i, st in enumerate(case["steps"]):
+        cfg = st["config"]
+        lim = st["limit"] if st["limit"] else _bytes(cfg[CFG_LIMIT])
+        thr = st["threshold"] if st["threshold"] else cfg[CFG_THRESHOLD]
+        here = dict(case, step=i, limit_in_force=lim, threshold_in_force=thr)
+        try:
+            plan = _plan_under(R, old, new, itemsize, st["threshold"], st["limit"], cfg)
+            ref = _plan_under(R, old, new, itemsize, thr, lim, dict(DECOY, **{CFG_DEGREE: cfg[CFG_DEGREE]}))
+        except _Timeout:
+            ctx.fail("history:nontermination", here, "plan_rechunk did not return within the watchdog time")
+            return False
+        except EXC as e:
+            ctx.fail("history:raises", dict(here, error=repr(e)), "plan_rechunk raises on chunkings of the same shape")
+            return False
+        plans.append(plan)
+        good = isinstance(plan, list) and plan and tuple(map(tuple, plan[-1])) == new and all(
+            len(s) == len(shape) and all(len(ax) > 0 and all(isinstance(c, int) and c >= 0 for c in ax) and sum(ax) == n for ax, n in zip(s, shape))
+            for s in plan)
+        if not good:
+            ctx.fail("history:invalid", dict(here, plan=plan), "a plan is empty, does not end in the new chunking or has a step that is no chunking of the shape")
+            return False
+        budget = max(Fraction(lim, itemsize), largest(old), largest(new))
+        over = [s for s in plan[:-1] if largest(s) > budget]
+        if over:
+            ok = False
+            ctx.fail("history:budget", dict(here, plan=plan, bad_step=over[0], block=largest(over[0]), budget=str(budget)),
+                     "after other configurations were used in this process an intermediate step has a block larger than "
+                     "max(limit in force/itemsize, largest old, largest new)")
+        elif [tuple(map(tuple, s)) for s in plan] != [tuple(map(tuple, s)) for s in ref]:
+            ok = False
+            ctx.fail("history:differs-from-explicit", dict(here, plan=plan, explicit=ref),
+                     "the plan under configured defaults differs from the plan with the same values passed explicitly")
+    distinct = len({repr(p) for p in plans})
+    ctx.count(("history", len(shape), len(case["steps"]), min(distinct, 3), case.get("vary"),
+               any(st["limit"] for st in case["steps"]), any(st["threshold"] for st in case["steps"]), max(map(len, plans)) > 1))
+    return ok
+
+
+def _crossed(rng):
+    """The classic costly rechunk: fine along one axis -> fine along the other (graph far above any threshold)."""
+    n = rng.choice([12, 24, 40, 100])
+    k = rng.choice([1, 1, 2, 3])
+    row = list(_uniform(n, k))
+    a, b = [row, [n]], [[n], row]
+    if rng.random() < 0.3:
+        m = rng.choice([2, 3, 5])
+        a, b = a + [[m]], b + [[1] * m if rng.random() < 0.5 else [m]]
+    return (a, b) if rng.random() < 0.5 else (b, a)
+
+
+def _uniform(n, k):
+    return (k,) * (n // k) + ((n % k,) if n % k else ())
+
+
+def rand_history_case(rng, maxaxis):
+    if rng.random() < 0.5:
+        old, new = _crossed(rng)
+    else:
+        c = rand_case(rng, maxaxis)
+        old, new = c["old"], c["new"]
+    itemsize = rng.choice([1, 2, 4, 8])
+    nelem = math.prod(sum(c) for c in old)
+    # limits spread around the sizes that matter for this pair: one element ... the whole array
+    lims = sorted({1, itemsize, itemsize * max(1, largest(old)), itemsize * max(1, largest(new)), itemsize * max(1, nelem // 16),
+                   itemsize * max(1, nelem // 4), itemsize * nelem, 2**27})
+    vary = rng.choice(["limit", "limit", "limit", "threshold", "degree", "all"])
+    n = rng.choice([2, 3, 3, 4])
+    base = {CFG_LIMIT: rng.choice(lims), CFG_THRESHOLD: rng.choice([1, 2, 4, 8]), CFG_DEGREE: rng.choice([2, 3, 10, 100])}
+    seq = []
+    for _ in range(n):
+        cfg = dict(base)
+        if vary in ("limit", "all"):
+            cfg[CFG_LIMIT] = rng.choice(lims)
+        if vary in ("threshold", "all"):
+            cfg[CFG_THRESHOLD] = rng.choice([1, 2, 3, 4, 8, 32, 1000])
+        if vary in ("degree", "all"):
+            cfg[CFG_DEGREE] = rng.choice([1, 2, 3, 5, 10, 100])
+        seq.append(cfg)
+    if rng.random() < 0.5:
+        seq.append(dict(seq[0]))  # A, B, ..., A
+    if vary == "limit" and rng.random() < 0.5:
+        seq.sort(key=lambda c: _bytes(c[CFG_LIMIT]), reverse=rng.random() < 0.5)  # generous -> tight or tight -> generous
+    argmode = rng.choice(["none", "none", "none", "limit-arg", "threshold-arg", "mixed"])
+    steps = []
+    for cfg in seq:
+        lim_arg = thr_arg = None
+        if argmode == "limit-arg" or (argmode == "mixed" and rng.random() < 0.4):
+            lim_arg = rng.choice(lims)
+        if argmode == "threshold-arg" or (argmode == "mixed" and rng.random() < 0.4):
+            thr_arg = rng.choice([1, 2, 4, 8, 32])
+        if rng.random() < 0.3:
+            cfg = dict(cfg)
+            cfg[CFG_LIMIT] = f"{cfg[CFG_LIMIT]}B"  # configuration values may be byte strings
+        steps.append({"threshold": thr_arg, "limit": lim_arg, "config": cfg})
+    return {"kind": "plan-history", "old": old, "new": new, "itemsize": itemsize, "steps": steps, "vary": vary}
+
+
+def history_search(ctx, R):
+    rng = ctx.rng
+    n = bad = 0
+    # the documented shape of the problem, both orders, deterministic
+    for order in (["128MiB", "1KiB", "16KiB", "1KiB", "128MiB"], ["1KiB", "128MiB", "1KiB"]):
+        for o, nw in ((((1,) * 100, (100,)), ((100,), (1,) * 100)), (((100,), (1,) * 100), ((1,) * 100, (100,)))):
+            case = {"kind": "plan-history", "old": [list(c) for c in o], "new": [list(c) for c in nw], "itemsize": 8, "vary": "limit",
+                    "steps": [{"threshold": None, "limit": None, "config": {CFG_LIMIT: v, CFG_THRESHOLD: 4, CFG_DEGREE: 10}} for v in order]}
+            n += 1
+            bad += not check_history_case(ctx, R, case)
+    for i in range(ctx.scale(2500, 30000)):
+        case = rand_history_case(rng, rng.choice([6, 12, 24]))
+        n += 1
+        bad += not check_history_case(ctx, R, case)
+        if i % 500 == 0:
+            ctx.sample({"case": case})
+    ctx.notes["history_cases"] = n
+    ctx.notes["history_cases_failing"] = bad
+
+
 KNOWN_BOUND_DEGREE = {
     "kind": "plan", "old": [[1, 3, 1], [4, 4, 6, 3]], "new": [[2, 3], [6, 4, 1, 5, 1]],
     "itemsize": 1, "threshold": 4, "limit": 8, "degree_limit": 3,
@@ -517,6 +677,8 @@ def replay_case(ctx, R, rp):
             check_plan_case(ctx, R, {k: case[k] for k in ("kind", "old", "new", "itemsize", "threshold", "limit", "degree_limit")}, pairs)
             if pairs:
                 ctx.correspond("plan_rechunk(recorded oracles)", pairs)
+        elif kind == "plan-history":
+            check_history_case(ctx, R, {k: case[k] for k in ("kind", "old", "new", "itemsize", "steps", "vary") if k in case})
         elif kind == "crosswalk":
             brute_crosswalk(ctx, R, tuple(case["old"]), tuple(case["new"]))
         elif kind == "helper":
@@ -554,7 +716,9 @@ def run(ctx, replay=None):
         "chunkings × all widths / counts for divide_to_width / merge_to_number) + seeded random large; plans: seeded "
         "random (old, new) of rank ≤ 3 × itemsize × threshold × limit × degree-limit through dask.config; distinct = "
         "(family, model output prefix, size class) for correspondence, (rank, plan length, #planner passes, "
-        "#degree subdivisions, budget outcome, zero-width) for plans, (shape of crosswalk) for the brute-force contract"
+        "#degree subdivisions, budget outcome, zero-width) for plans, (shape of crosswalk) for the brute-force contract; "
+        "call histories: the same (old, new, itemsize) under 2-5 configurations in one process (what varies, arguments vs "
+        "configured defaults, #distinct plans)"
     )
     ctx.assumptions += [
         "float-derived planner choices (sort order, chunk_limit, max_number, nsteps, count) are recorded from the real run "
@@ -562,6 +726,8 @@ def run(ctx, replay=None):
         "and that the order is a permutation of the merge candidates (rel=1)",
         "merge_to_number is compared on positive widths only (with zero-width entries the Python helper raises; plan_rechunk "
         "never passes such an axis since bb7113a — regression probe plan:raises:zero-width)",
+        "call histories: the budget of a call is the one of the configuration in force at that call (limit argument, else "
+        "array.chunk-size); a threshold / limit argument of None (or 0) means 'use the configuration'",
         "threshold, itemsize, limit are integers (the configuration values are); the termination of the `while True` loop is "
         "checked by a watchdog on every generated case, not proved",
     ]
@@ -579,5 +745,6 @@ def run(ctx, replay=None):
     known_probes(ctx, R)
     helper_pairs(ctx, R)
     plan_search(ctx, R)
+    history_search(ctx, R)
     if ctx.disagreements:
         targeted(ctx, R)
